@@ -5,38 +5,44 @@ From M Require Import Base Flat FlatSpec.
 Import ListNotations.
 
 Definition no_raise (ev : env) : Prop := forall cb p, r_raise (ev cb p) = None.
+(* no callback raises from position p on *)
+Definition no_raise_from (ev : env) (p : nat) : Prop := forall cb q, p <= q -> r_raise (ev cb q) = None.
+
+Lemma nrf_mono ev p q : no_raise_from ev p -> p <= q -> no_raise_from ev q.
+Proof. intros H L cb r Hr. apply H. lia. Qed.
+Lemma no_raise_nrf ev p : no_raise ev -> no_raise_from ev p.
+Proof. intros H cb q _. apply H. Qed.
 
 Section P.
   Variable mc : machine.
   Variable ev : env.
   Variable c : ctx.
-  Hypothesis NR : no_raise ev.
 
   Notation id_seen := (fun s : state => s).
 
-  Lemma call_ok sl err cb p s :
+  Lemma call_ok sl err cb p s : no_raise_from ev p ->
     call id_seen ev c sl err cb p s = ([mk ev c sl err s cb p], s, inr (r_ret (ev cb p))).
-  Proof. unfold call, mk. rewrite NR. reflexivity. Qed.
+  Proof. intros NR. unfold call, mk. rewrite NR by lia. reflexivity. Qed.
 
   Lemma items_length sl err st cbs p : length (items ev c sl err st cbs p) = length cbs.
   Proof. revert p; induction cbs as [|cb r IH]; intros p; simpl; [reflexivity|]. now rewrite IH. Qed.
 
-  Lemma run_cbs_ok sl err cbs p s :
+  Lemma run_cbs_ok sl err cbs p s : no_raise_from ev p ->
     run_cbs id_seen ev c sl err cbs p s = (items ev c sl err s cbs p, s, inr tt).
   Proof.
-    revert p; induction cbs as [|cb r IH]; intros p; simpl; [reflexivity|].
-    unfold bind. rewrite call_ok. simpl. rewrite IH.
+    revert p; induction cbs as [|cb r IH]; intros p NR; simpl; [reflexivity|].
+    unfold bind. rewrite call_ok by assumption. simpl. rewrite IH by (eapply nrf_mono; [eassumption|lia]).
     replace (p + 1) with (S p) by lia. reflexivity.
   Qed.
 
-  Lemma eval_conds_ok conds p s :
+  Lemma eval_conds_ok conds p s : no_raise_from ev p ->
     eval_conds id_seen ev c conds p s =
       (fst (cond_items ev c s conds p), s, inr (snd (cond_items ev c s conds p))).
   Proof.
-    revert p; induction conds as [|[cb tg] r IH]; intros p; simpl; [reflexivity|].
-    unfold bind. rewrite call_ok. simpl.
+    revert p; induction conds as [|[cb tg] r IH]; intros p NR; simpl; [reflexivity|].
+    unfold bind. rewrite call_ok by assumption. simpl.
     destruct (Bool.eqb (r_ret (ev cb p)) tg) eqn:E.
-    - rewrite IH. replace (p + 1) with (S p) by lia.
+    - rewrite IH by (eapply nrf_mono; [eassumption|lia]). replace (p + 1) with (S p) by lia.
       destruct (cond_items ev c s r (S p)) as [l b]. reflexivity.
     - reflexivity.
   Qed.
